@@ -42,9 +42,10 @@ inductive CRaise
   | unmodelled        -- input shape outside the model (never produced by the generators)
   deriving DecidableEq, Repr, Inhabited
 
-/-- one `element_set.send(sender, adapted=...)`: where the sender sits below the observed element,
+/-- one `element_set.send(sender, adapted=...)`: where the sender sits below the observed element
+    (`none`: the sender was set but never became part of the tree — a JoinedString piece that was pruned),
     the `adapted` flag, and the state of the sender that a listener sees at that moment -/
-abbrev Sig := List Nat × Bool × Elem
+abbrev Sig := Option (List Nat) × Bool × Elem
 
 structure SetOut where
   elem : Elem
@@ -67,7 +68,7 @@ def blankL : List Schema → List Elem
   | f :: fs => blank f :: blankL fs
 end
 
-def prefixSigs (i : Nat) (sigs : List Sig) : List Sig := sigs.map fun s => (i :: s.1, s.2)
+def prefixSigs (i : Nat) (sigs : List Sig) : List Sig := sigs.map fun s => (s.1.map (i :: ·), s.2)
 
 /-- `Scalar.set(obj)` on an element in state `old`, assignment by assignment, with the state a
     listener sees when `element_set.send` runs:
@@ -94,7 +95,21 @@ def scalarSetTrace (E : Env) (k : Kind) (old : SState) (obj : Native) :
       .ok (s3, false, [(false, s3)])                           -- `element_set.send(self, adapted=False)`
 
 /-- the signals of a scalar child, as entries of its parent's log -/
-def scalarSigs (l : List (Bool × SState)) : List Sig := l.map fun p => ([], p.1, Elem.scalar p.2)
+def scalarSigs (l : List (Bool × SState)) : List Sig := l.map fun p => (some [], p.1, Elem.scalar p.2)
+
+/-- the loop of `JoinedString.set` over the pieces (each already `set()` in a fresh member):
+    `if prune and child.u == "": continue` drops the member — its signal has been emitted, from an
+    element that never joins the tree, and its flag does not count; otherwise the member is appended
+    at the next position.  Returns the kept members with their flags, and the signal log. -/
+def keepPieces (prune : Bool) : List (SState × Bool × List (Bool × SState)) → Nat → List (SState × Bool) × List Sig
+  | [], _ => ([], [])
+  | r :: rest, i =>
+    if prune && r.1.u.isEmpty then
+      let out := keepPieces prune rest i
+      (out.1, (r.2.2.map fun p => (none, p.1, Elem.scalar p.2)) ++ out.2)
+    else
+      let out := keepPieces prune rest (i + 1)
+      ((r.1, r.2.1) :: out.1, (r.2.2.map fun p => (some [i], p.1, Elem.scalar p.2)) ++ out.2)
 
 /-- `for v in iterable`: none = TypeError (not iterable) -/
 def iterItems : Input → Option (List Input)
@@ -172,7 +187,7 @@ def setElem (E : Env) : Schema → Elem → Input → Except CRaise SetOut
     -- `del self[:]`, then one fresh member per item
     let cleared := Elem.seq []
     match iterItems inp with
-    | none => .ok ⟨cleared, false, [([], false, cleared)]⟩      -- `except TypeError: element_set.send(self, adapted=False)`
+    | none => .ok ⟨cleared, false, [(some [], false, cleared)]⟩      -- `except TypeError: element_set.send(self, adapted=False)`
     | some items =>
       let outs := (indexed items).map fun (i, x) => (i, setElem E m (blank m) x)
       match outs.findSome? (fun (_, o) => match o with | .error e => some e | .ok _ => none) with
@@ -181,10 +196,10 @@ def setElem (E : Env) : Schema → Elem → Input → Except CRaise SetOut
         let oks := outs.filterMap fun (i, o) => match o with | .ok out => some (i, out) | .error _ => none
         let flag := oks.all fun (_, out) => out.flag           -- `converted &= el.set(v)`
         let attached := Elem.seq (oks.map (·.2.elem))          -- `self.extend(values)`, then the signal
-        .ok ⟨attached, flag, (oks.flatMap fun (i, out) => prefixSigs i out.sigs) ++ [([], flag, attached)]⟩
+        .ok ⟨attached, flag, (oks.flatMap fun (i, out) => prefixSigs i out.sigs) ++ [(some [], flag, attached)]⟩
   | .dict pol names fields, old, inp =>
     match toPairs inp with
-    | none => .ok ⟨old, false, [([], false, old)]⟩              -- `except (TypeError, ValueError)`, before `_reset()`: members as they were
+    | none => .ok ⟨old, false, [(some [], false, old)]⟩              -- `except (TypeError, ValueError)`, before `_reset()`: members as they were
     | some pairs =>
       -- subset policy: keys outside the schema raise KeyError (after `_reset()`, no signal)
       if pol == .subset && !(pairs.all fun p => match p.1 with | .str s => names.contains s | _ => false) then
@@ -197,7 +212,7 @@ def setElem (E : Env) : Schema → Elem → Input → Except CRaise SetOut
           let calls := mergeCalls runs pairs.length
           let flag := calls.all (·.1)
           let filled := Elem.dict (runs.map (·.2.elem))         -- after the member loop, then the signal
-          .ok ⟨filled, flag, (calls.flatMap (·.2)) ++ [([], flag, filled)]⟩
+          .ok ⟨filled, flag, (calls.flatMap (·.2)) ++ [(some [], flag, filled)]⟩
   | .date yk mk dk, old, inp =>
     match inp with
     | .leaf x =>
@@ -206,7 +221,7 @@ def setElem (E : Env) : Schema → Elem → Input → Except CRaise SetOut
       | .error r => .error (.scalar r)
       | .ok (some .none) =>
         -- `getattr(None, 'year')` raises AttributeError: caught by Compound.set, members untouched
-        .ok ⟨old, false, [([], false, old)]⟩
+        .ok ⟨old, false, [(some [], false, old)]⟩
       | .ok ov =>
         let parts : Native × Native × Native := match ov with
           | some (.date y m d) => (.int y, .int m, .int d)
@@ -222,7 +237,7 @@ def setElem (E : Env) : Schema → Elem → Input → Except CRaise SetOut
           let after := Elem.date a.1 b.1 c.1
           .ok ⟨after, true,
                prefixSigs 0 (scalarSigs a.2.2) ++ prefixSigs 1 (scalarSigs b.2.2) ++
-               prefixSigs 2 (scalarSigs c.2.2) ++ [([], true, after)]⟩
+               prefixSigs 2 (scalarSigs c.2.2) ++ [(some [], true, after)]⟩
         | .error r, _, _ => .error (.scalar r)
         | _, .error r, _ => .error (.scalar r)
         | _, _, .error r => .error (.scalar r)
@@ -241,19 +256,19 @@ def setElem (E : Env) : Schema → Elem → Input → Except CRaise SetOut
     | .error e => .error e
     | .ok none =>
       let cleared := Elem.joined []                                          -- `del self[:]` first,
-      .ok ⟨cleared, false, [([], false, cleared)]⟩                           -- then `element_set.send(self, adapted=False)`
+      .ok ⟨cleared, false, [(some [], false, cleared)]⟩                           -- then `element_set.send(self, adapted=False)`
     | .ok (some vals) =>
-      let kept := vals.filter fun v => !(prune && !pyTruthy v)        -- `if prune and not value: continue`
-      -- `del self[:]`; every kept value is set() in a fresh member, which is then appended
-      let outs := kept.map fun v => scalarSetTrace E k blankState v
+      -- `del self[:]`; every piece is set() in a fresh member (fix 2a6b55c: the member adapts the piece
+      -- first), then kept or pruned on the member's text
+      let outs := vals.map fun v => scalarSetTrace E k blankState v
       match outs.findSome? (fun o => match o with | .error e => some e | .ok _ => none) with
       | some e => .error (.scalar e)
       | none =>
         let oks := outs.filterMap fun o => match o with | .ok r => some r | .error _ => none
-        let flag := oks.all (·.2.1)                                   -- `all(success)`
-        let after := Elem.joined (oks.map (·.1))
-        .ok ⟨after, flag,
-             ((indexed oks).flatMap fun (i, r) => prefixSigs i (scalarSigs r.2.2)) ++ [([], flag, after)]⟩
+        let kept := keepPieces prune oks 0
+        let flag := kept.1.all (·.2)                                  -- `all(success)`
+        let after := Elem.joined (kept.1.map (·.1))
+        .ok ⟨after, flag, kept.2 ++ [(some [], flag, after)]⟩
 /-- the `for key, value in pairs` loop of `Dict.set`, one field at a time -/
 def setFields (E : Env) : List Str → List Schema → List (Native × Input) → Nat → List (Nat × ChildRun)
   | n :: ns, f :: fs, pairs, i =>
